@@ -41,7 +41,7 @@ func init() {
 		Replay: replay,
 		Rule: "struct types = every field sequence over (22 field kinds x 6 tag classes; embedded kinds untagged) built with reflect.StructOf; per type every value vector " +
 			"(zero / non-zero / nil / empty / pointer-to-zero per field), the full product of UseTags, KeyExact, OmitNil, OmitEmpty, NestEmbed, CreateKey (x BytesAs 0..2 when the type has a []byte field), " +
-			"26 executions per case (8 encoders x by value / by pointer x indent 0 / 2), plan caches reset per (type, OmitEmpty); plus a typed nil pointer per single-field type; " +
+			"20 executions per case (8 encoders, value passed by value / by pointer, indent 0 / 2), plan caches reset per (type, OmitEmpty); plus a typed nil pointer per single-field type; " +
 			"plus every first-use order of 18 cache actions up to the stated length. evaluations = executions of an ojg encoder; " +
 			"distinct_nontrivial = (type, value, option) cases whose reference tree has at least one member",
 		Assumptions: []string{
@@ -49,6 +49,7 @@ func init() {
 			"encoding/json parses the JSON outputs; sen.Parser parses the SEN outputs (strings in the value alphabet are SEN-safe)",
 			"a struct plan depends only on (type, OmitEmpty) and the option mask, so resetting the plan caches per (type, OmitEmpty) makes every case start fresh; the history leg covers the orders",
 			"BytesAs is read only when a []byte value is written, so it is varied only for types with a []byte field",
+			"NestEmbed is read only for anonymous fields: types of two or more fields without an embedded field are run with NestEmbed off (single-field types get both)",
 			"failures are reported at their minimal option set and minimal field sequence (a failure also present with one option or one neighbour field less is counted once, there)",
 		},
 		Bound: func(tier string) string {
@@ -161,8 +162,17 @@ func masksFor(spec gens.StructSpec) (off, on []int) {
 	if hasKind(spec, "bytes") {
 		nb = 3
 	}
+	nest := len(spec) == 1
+	for _, f := range spec {
+		if gens.Kinds[f.Kind].Embedded {
+			nest = true
+		}
+	}
 	for b := 0; b < nb; b++ {
 		for m := 0; m < 1<<nBits; m++ {
+			if !nest && m&bNestEmbed != 0 {
+				continue
+			}
 			full := m | b<<bytesShift
 			if m&bOmitEmpty != 0 {
 				on = append(on, full)
@@ -465,9 +475,19 @@ func (ex *explorer) judge(ti *typeInfo, vals []int, mask int, cf *caseFails, lat
 	for _, k := range keys {
 		bits := cf.bits(k)
 		ex.c.Add("failing_executions", int64(popcount(int(bits))))
+		soft := strings.HasPrefix(k.disc, "disagree")
 		for _, sm := range submasks(mask) {
 			if sub := lattice[sm]; sub != nil {
 				bits &^= sub.bits(k)
+				if soft {
+					// a disagreement on a field that already fails with one option
+					// less is the same story told differently
+					for sk := range sub.set {
+						if sk.field == k.field {
+							bits = 0
+						}
+					}
+				}
 			}
 		}
 		if bits == 0 {
